@@ -201,6 +201,12 @@ def decl_order(F, rep):
                    "other locals are pushed after their initialiser was resolved (%s): `x := x` cannot see itself" % ov,
                    line_of(second))
             og = order(top["t"])
+            from flow import uncond_nodes
+            un_push = any(n.get("k") == "MethodCall" and callee(n) == R + "push_var" for n in uncond_nodes(top["t"]))
+            rep.ob("DECL-ORDER", "Resolver::statement|Definition|global-scope-marker", og == ["push", "expr"] and un_push,
+                   "while a global's initialiser is resolved the scope stack holds a marker entry, pushed unconditionally before the "
+                   "initialiser (%s): an empty stack is what tells a global from a local, so definitions nested in the initialiser must "
+                   "see a non-empty stack" % og, line_of(top))
             looks = [n for n in nodes(top["t"]) if callee(n) == R + "lookup"]
             rep.ob("DECL-ORDER", "Resolver::statement|Definition|global", bool(looks),
                    "top-level definitions resolve to the pre-registered global of that name", line_of(top))
